@@ -342,6 +342,13 @@ def symbolic_returns(fi: FuncInfo) -> List[Tuple[List[Tuple[ast.AST, bool]], Opt
             if isinstance(st, ast.AnnAssign) and isinstance(st.target, ast.Name) and st.value is not None and is_simple(st.value):
                 env[st.target.id] = sub(st.value, env)
                 continue
+            if isinstance(st, ast.Assign) and len(st.targets) == 1 and isinstance(st.targets[0], ast.Tuple) and isinstance(st.value, ast.Tuple) \
+                    and len(st.targets[0].elts) == len(st.value.elts) and all(isinstance(t, ast.Name) for t in st.targets[0].elts) \
+                    and all(is_simple(v) for v in st.value.elts):
+                vals = [sub(v, env) for v in st.value.elts]          # a, b = x, y  (simultaneous)
+                for t, v in zip(st.targets[0].elts, vals):
+                    env[t.id] = v
+                continue
             for n in ast.walk(st):
                 if isinstance(n, ast.Name) and isinstance(n.ctx, (ast.Store, ast.Del)):
                     env.pop(n.id, None)
